@@ -25,6 +25,8 @@ pub enum Op {
     ApplyNamedStyle(u32, i32, i32, i32, i32, String),
     /// select the area then on_paste_styles with a 1x1 bold+fill style
     PasteStyles(u32, i32, i32, i32, i32),
+    /// on_paste_styles with a 1x1 style into whatever is selected now (no selection prelude)
+    PasteStylesHere,
     InsertRows(u32, i32, i32),
     InsertCols(u32, i32, i32),
     DeleteRows(u32, i32, i32),
@@ -176,6 +178,7 @@ impl Op {
             DeleteNamedStyle(..) => "DeleteNamedStyle",
             ApplyNamedStyle(..) => "ApplyNamedStyle",
             PasteStyles(..) => "PasteStyles",
+            PasteStylesHere => "PasteStylesHere",
             InsertRows(..) => "InsertRows",
             InsertCols(..) => "InsertCols",
             DeleteRows(..) => "DeleteRows",
@@ -293,6 +296,7 @@ impl Op {
                 select(um, *s, *r, *c, r + h - 1, c + w - 1)?;
                 um.on_paste_styles(&[vec![fancy_style(false)]])
             }
+            PasteStylesHere => um.on_paste_styles(&[vec![fancy_style(true)]]),
             InsertRows(s, r, n) => um.insert_rows(*s, *r, *n),
             InsertCols(s, c, n) => um.insert_columns(*s, *c, *n),
             DeleteRows(s, r, n) => um.delete_rows(*s, *r, *n),
